@@ -398,4 +398,121 @@ theorem hso_trivalent (n : Nat) (hn : 0 < n) (v : Nat) (hvlt : v < 6 * (n * n)) 
 
 end Honeycomb
 
+section Tiling
+open G10
+
+
+/-! ### tiling keeps the coordination of every site of the unit cell -/
+
+/-- the tiled copies of one unit edge `ec = ((a, b), (s0, s1))` -/
+def tileOne (k : Nat) (nx ny : Nat) (ec : (Nat × Nat) × (Int × Int)) : ECs :=
+  (List.range (nx * ny)).map fun p => ((ec.1.1 + p * k, ec.1.2 + k * nc nx ny p ec.2.1 ec.2.2), G10.crossing nx ny p ec.2.1 ec.2.2)
+
+theorem degIn_nil (v : Nat) : degIn [] v = 0 := by simp [degIn]
+
+/-- counting ends does not care in which order the cells and the unit edges are run through -/
+theorem degIn_tile_cons (k nx ny : Nat) (ec : (Nat × Nat) × (Int × Int)) (rest : List ((Nat × Nat) × (Int × Int))) (v : Nat) :
+    degIn ((List.range (nx * ny)).flatMap fun p => (ec :: rest).map fun ec =>
+        ((ec.1.1 + p * k, ec.1.2 + k * nc nx ny p ec.2.1 ec.2.2), G10.crossing nx ny p ec.2.1 ec.2.2)) v
+      = degIn (tileOne k nx ny ec) v + degIn ((List.range (nx * ny)).flatMap fun p => rest.map fun ec =>
+        ((ec.1.1 + p * k, ec.1.2 + k * nc nx ny p ec.2.1 ec.2.2), G10.crossing nx ny p ec.2.1 ec.2.2)) v := by
+  unfold tileOne degIn
+  generalize List.range (nx * ny) = l
+  induction l with
+  | nil => simp
+  | cons p ps ih =>
+    simp only [List.flatMap_cons, List.map_cons, List.map_append, List.count_append, List.count_cons] at ih ⊢
+    omega
+
+theorem degIn_tile (k nx ny : Nat) (E : List ((Nat × Nat) × (Int × Int))) (v : Nat) :
+    degIn ((List.range (nx * ny)).flatMap fun p => E.map fun ec =>
+        ((ec.1.1 + p * k, ec.1.2 + k * nc nx ny p ec.2.1 ec.2.2), G10.crossing nx ny p ec.2.1 ec.2.2)) v
+      = (E.map fun ec => degIn (tileOne k nx ny ec) v).sum := by
+  induction E with
+  | nil =>
+    have : ∀ l : List Nat, (l.flatMap fun _ => ([] : ECs)) = [] := by
+      intro l; induction l <;> simp_all
+    simp [degIn, this]
+  | cons ec rest ih =>
+    rw [degIn_tile_cons, ih]; simp
+
+/-- the copies of one unit edge contribute one end at site `s` of cell `q` for each of its two ends that is site `s` -/
+theorem degIn_tileOne (k nx ny : Nat) (hk : 0 < k) (hx : 0 < nx) (hy : 0 < ny) (ec : (Nat × Nat) × (Int × Int))
+    (ha : ec.1.1 < k) (hb : ec.1.2 < k) (s q : Nat) (hs : s < k) (hq : q < nx * ny) :
+    degIn (tileOne k nx ny ec) (s + k * q) = (if ec.1.1 = s then 1 else 0) + (if ec.1.2 = s then 1 else 0) := by
+  unfold tileOne degIn
+  simp only [List.map_map, Function.comp_def]
+  have e1 : ((List.range (nx * ny)).map fun p => ec.1.1 + p * k) = (cells nx ny).map fun p => ec.1.1 + k * p := by
+    apply List.map_congr_left; intro p _; rw [Nat.mul_comm]
+  have e2 : ((List.range (nx * ny)).map fun p => ec.1.2 + k * nc nx ny p ec.2.1 ec.2.2)
+      = ((cells nx ny).map fun p => nc nx ny p ec.2.1 ec.2.2).map fun m => ec.1.2 + k * m := by
+    rw [List.map_map]; rfl
+  rw [e1, e2, count_map_affine _ k _ _ hk, count_map_affine _ k _ _ hk]
+  have key : ∀ a, a < k → ((a ≤ s + k * q ∧ (s + k * q - a) % k = 0) ↔ a = s) := by
+    intro a hak
+    constructor
+    · rintro ⟨h1, h2⟩
+      by_contra hne
+      rcases Nat.lt_or_gt_of_ne hne with h | h
+      · have : (s + k * q - a) = (s - a) + k * q := by omega
+        rw [this, Nat.add_mul_mod_self_left] at h2
+        have : (s - a) % k = s - a := Nat.mod_eq_of_lt (by omega)
+        omega
+      · -- a > s: then q ≥ 1 and s + k q − a = (k − (a − s)) + k (q − 1)
+        have hq1 : 1 ≤ q := by
+          by_contra hq0
+          have : q = 0 := by omega
+          subst this; simp at h1; omega
+        have : (s + k * q - a) = (k - (a - s)) + k * (q - 1) := by
+          have : k * q = k + k * (q - 1) := by
+            have : q = 1 + (q - 1) := by omega
+            calc k * q = k * (1 + (q - 1)) := by rw [← this]
+              _ = k + k * (q - 1) := by rw [Nat.mul_add, Nat.mul_one]
+          omega
+        rw [this, Nat.add_mul_mod_self_left] at h2
+        have : (k - (a - s)) % k = k - (a - s) := Nat.mod_eq_of_lt (by omega)
+        omega
+    · rintro rfl
+      exact ⟨by omega, by simp⟩
+  have hdiv : (s + k * q - s) / k = q := by
+    rw [Nat.add_sub_cancel_left, Nat.mul_div_cancel_left _ hk]
+  congr 1
+  · by_cases h : ec.1.1 = s
+    · rw [if_pos ((key _ ha).mpr h), if_pos h, h, hdiv]
+      exact count_cells nx ny q hq
+    · rw [if_neg (fun hh => h ((key _ ha).mp hh)), if_neg h]
+  · by_cases h : ec.1.2 = s
+    · rw [if_pos ((key _ hb).mpr h), if_pos h, h, hdiv, (nc_perm nx ny hx hy _ _).count_eq]
+      exact count_cells nx ny q hq
+    · rw [if_neg (fun hh => h ((key _ hb).mp hh)), if_neg h]
+
+/-- **C10 (tile_unit_cell, every unit cell, every tiling)**: site `s` of every one of the `n_x·n_y` copies has exactly the
+    coordination it has in the unit cell: the number of unit edges starting at `s` plus the number ending at `s` -/
+theorem tile_degree (k : Nat) (ue : List (Nat × Nat)) (uc : List (Int × Int)) (nx ny : Nat) (hk : 0 < k) (hx : 0 < nx) (hy : 0 < ny)
+    (hends : ∀ e ∈ ue, e.1 < k ∧ e.2 < k) (s q : Nat) (hs : s < k) (hq : q < nx * ny) :
+    degIn (tile k ue uc nx ny) (s + k * q)
+      = ((ue.zip uc).map fun ec => (if ec.1.1 = s then 1 else 0) + (if ec.1.2 = s then 1 else 0)).sum := by
+  unfold tile
+  rw [degIn_tile]
+  congr 1
+  apply List.map_congr_left
+  intro ec hec
+  have hm : ec.1 ∈ ue := (List.of_mem_zip hec).1
+  exact degIn_tileOne k nx ny hk hx hy ec (hends _ hm).1 (hends _ hm).2 s q hs hq
+
+
+/-- **C10 (tri-non, every tiling)**: with the unit-cell tables read from `generators/tri_non.py` on this run, every one of the
+    `4·n_x·n_y` vertices of `tri_non_lattice(n_x, n_y)` has exactly three edge ends -/
+theorem trinon_trivalent (nx ny : Nat) (hx : 0 < nx) (hy : 0 < ny) (v : Nat) (hv : v < 4 * (nx * ny)) :
+    degIn (tile 4 GenT.trinon_edges GenT.trinon_crossing nx ny) v = 3 := by
+  have hv' : v = v % 4 + 4 * (v / 4) := (Nat.mod_add_div v 4).symm
+  rw [hv', tile_degree 4 GenT.trinon_edges GenT.trinon_crossing nx ny (by omega) hx hy (by decide) (v % 4) (v / 4) (Nat.mod_lt _ (by omega)) (by omega)]
+  have h4 : v % 4 < 4 := Nat.mod_lt _ (by omega)
+  generalize v % 4 = s at h4
+  interval_cases s <;> decide
+
+example : degIn (tile 4 GenT.trinon_edges GenT.trinon_crossing 2 3) 17 = 3 := by decide
+
+end Tiling
+
 end C10
